@@ -267,7 +267,7 @@ def _run_hex(case):
         g = cls(w, h, torus)
     where = {}
     for aid, x, y in case["agents"]:
-        a = mesa.Agent(model)
+        a = _agent(model, aid)
         a._verif_id = aid
         g.place_agent(a, (x, y))
         where.setdefault((x, y), []).append(aid)
@@ -313,7 +313,7 @@ def _run_net(case):
     g = NetworkGrid(G)
     where = {}
     for aid, node in case["agents"]:
-        a = mesa.Agent(model)
+        a = _agent(model, aid)
         a._verif_id = aid
         g.place_agent(a, node)
         where.setdefault(node, []).append(aid)
@@ -362,6 +362,29 @@ def _run_net(case):
     return {"obs": obs, "failures": failures, "ops_for_model": [adjl] * len(case["ops"])}
 
 
+_FALSY = {}
+
+
+def _agent(model, aid):
+    """a plain Agent for odd ids; for even ids an agent whose truth value is False (a container-style agent
+    with __len__ == 0 / a cell automaton with __bool__ = alive): the statement says 'exactly the agents
+    occupying those cells', whatever their truth value"""
+    import mesa
+
+    if not _FALSY:
+        class Household(mesa.Agent):
+            def __len__(self):
+                return 0
+
+        class Dead(mesa.Agent):
+            def __bool__(self):
+                return False
+
+        _FALSY["h"], _FALSY["d"] = Household, Dead
+    cls = mesa.Agent if aid % 2 else (_FALSY["h"] if aid % 4 == 0 else _FALSY["d"])
+    return cls(model)
+
+
 def run_impl(case):
     if case.get("kind") == "hex":
         return _run_hex(case)
@@ -380,7 +403,7 @@ def run_impl(case):
     ids = {}
     where = {}
     for aid, x, y in case["agents"]:
-        a = mesa.Agent(model)
+        a = _agent(model, aid)
         ids[id(a)] = aid
         a._verif_id = aid
         g.place_agent(a, (x, y))
